@@ -36,9 +36,14 @@ use std::sync::Arc;
 // ---------------------------------------------------------------------------------------------
 // Handles
 
-pub const N_FORMS: u8 = 12;
-pub const FORM_NAMES: [&str; 12] =
-    ["value", "Box", "Rc", "Arc", "boxed()", "Either::Left", "Either::Right", "Rc<Box>", "Box<Arc<Either<_,Rc>>>", "Either<boxed(),_>", "Arc<boxed()>", "Box<Box<Box>>"];
+pub const N_FORMS: u8 = 16;
+pub const FORM_NAMES: [&str; 16] = [
+    "value", "Box", "Rc", "Arc", "boxed()", "Either::Left", "Either::Right", "Rc<Box>", "Box<Arc<Either<_,Rc>>>", "Either<boxed(),_>", "Arc<boxed()>", "Box<Box<Box>>",
+    "Box<dyn Parser>", "Rc<dyn Parser>", "Arc<dyn Parser>", "Either<Either<Either<_,_>,_>,_>",
+];
+/// `form` value of operations that go through `Cache::get()`
+pub const CACHE_FORM: usize = 99;
+type DynP<'a, I> = dyn Parser<'a, I, Val, Ex<'a, I>> + 'a;
 
 pub enum HK<'a, I: Input<'a>, P>
 where
@@ -57,6 +62,12 @@ where
     EBx(Either<Boxed<'a, 'a, I, Val, Ex<'a, I>>, P>),
     ArcBx(Arc<Boxed<'a, 'a, I, Val, Ex<'a, I>>>),
     Box3(Box<Box<Box<P>>>),
+    /// trait objects coerced from the concrete parser (used through `&dyn Parser`: `Box<dyn ..>` etc.
+    /// are not parsers themselves); the concrete value is kept next to it only to derive new handles
+    BoxDyn(Rc<Box<DynP<'a, I>>>, P),
+    RcDyn(Rc<DynP<'a, I>>, P),
+    ArcDyn(Arc<DynP<'a, I>>, P),
+    E3(Either<Either<Either<P, P>, P>, P>),
 }
 
 impl<'a, I: Input<'a>, P: Clone> Clone for HK<'a, I, P>
@@ -78,6 +89,10 @@ where
             HK::EBx(p) => HK::EBx(p.clone()),
             HK::ArcBx(p) => HK::ArcBx(p.clone()),
             HK::Box3(p) => HK::Box3(p.clone()),
+            HK::BoxDyn(d, p) => HK::BoxDyn(d.clone(), p.clone()),
+            HK::RcDyn(d, p) => HK::RcDyn(d.clone(), p.clone()),
+            HK::ArcDyn(d, p) => HK::ArcDyn(d.clone(), p.clone()),
+            HK::E3(p) => HK::E3(p.clone()),
         }
     }
 }
@@ -103,6 +118,10 @@ where
             HK::EBx(_) => 9,
             HK::ArcBx(_) => 10,
             HK::Box3(_) => 11,
+            HK::BoxDyn(..) => 12,
+            HK::RcDyn(..) => 13,
+            HK::ArcDyn(..) => 14,
+            HK::E3(_) => 15,
         }
     }
     /// A clone of the underlying parser value, where one is reachable.
@@ -120,6 +139,10 @@ where
             },
             HK::EBx(Either::Right(p)) => p.clone(),
             HK::Box3(p) => (****p).clone(),
+            HK::BoxDyn(_, p) | HK::RcDyn(_, p) | HK::ArcDyn(_, p) => p.clone(),
+            HK::E3(e) => match e {
+                Either::Right(p) | Either::Left(Either::Right(p)) | Either::Left(Either::Left(Either::Left(p))) | Either::Left(Either::Left(Either::Right(p))) => p.clone(),
+            },
             HK::Bx(_) | HK::ArcBx(_) | HK::EBx(Either::Left(_)) => return None,
         })
     }
@@ -146,7 +169,11 @@ where
                 8 => HK::BoxArcE(Box::new(Arc::new(if flip { Either::Left(p) } else { Either::Right(Rc::new(p)) }))),
                 9 => HK::EBx(if flip { Either::Left(p.boxed()) } else { Either::Right(p) }),
                 10 => HK::ArcBx(Arc::new(p.boxed())),
-                _ => HK::Box3(Box::new(Box::new(Box::new(p)))),
+                11 => HK::Box3(Box::new(Box::new(Box::new(p)))),
+                12 => HK::BoxDyn(Rc::new(Box::new(p.clone()) as Box<DynP<'a, I>>), p),
+                13 => HK::RcDyn(Rc::new(p.clone()) as Rc<DynP<'a, I>>, p),
+                14 => HK::ArcDyn(Arc::new(p.clone()) as Arc<DynP<'a, I>>, p),
+                _ => HK::E3(if flip { Either::Left(Either::Left(Either::Right(p))) } else { Either::Left(Either::Right(p)) }),
             },
             None => {
                 let b = self.inner_boxed();
@@ -183,6 +210,19 @@ where
             HK::EBx(p) => go!(p),
             HK::ArcBx(p) => go!(p),
             HK::Box3(p) => go!(p),
+            HK::BoxDyn(d, _) => {
+                let r: &DynP<'a, I> = &***d;
+                go!(&r)
+            }
+            HK::RcDyn(d, _) => {
+                let r: &DynP<'a, I> = &**d;
+                go!(&r)
+            }
+            HK::ArcDyn(d, _) => {
+                let r: &DynP<'a, I> = &**d;
+                go!(&r)
+            }
+            HK::E3(p) => go!(p),
         }
     }
 }
@@ -720,7 +760,7 @@ macro_rules! cache_history_fn {
                         let (_, _, fired) = hook::end_op();
                         hook::end_ticks();
                         drop(fresh_buf);
-                        out.push(OpResult { nested: false, op: i, key: (*inp, mode_ix(*mode), *abort), form: 12, outcome: o, abort_fired: fired });
+                        out.push(OpResult { nested: false, op: i, key: (*inp, mode_ix(*mode), *abort), form: CACHE_FORM, outcome: o, abort_fired: fired });
                     }
                     Op::Derive { .. } | Op::CloneH { .. } => extra.push(Some(mk_cache())),
                     Op::CloneMany { .. } => {}
@@ -778,9 +818,9 @@ macro_rules! cache_history_fn {
                         hook::end_ticks();
                         hook::clear_reenter();
                         if let Some(io) = inner.into_inner() {
-                            out.push(OpResult { nested: true, op: i, key: (*inp2, mode_ix(*mode2), 0), form: 12, outcome: io, abort_fired: false });
+                            out.push(OpResult { nested: true, op: i, key: (*inp2, mode_ix(*mode2), 0), form: CACHE_FORM, outcome: io, abort_fired: false });
                         }
-                        out.push(OpResult { nested: false, op: i, key: (*inp, mode_ix(*mode), 0), form: 12, outcome: o, abort_fired: false });
+                        out.push(OpResult { nested: false, op: i, key: (*inp, mode_ix(*mode), 0), form: CACHE_FORM, outcome: o, abort_fired: false });
                     }
                     Op::MoveH { .. } | Op::Nop => {}
                 }
@@ -1096,7 +1136,7 @@ impl HistSim {
         for r in &ran.results {
             d = fold(d, r.outcome.digest());
             acc.inc("evaluations.history_parses");
-            acc.inc(&format!("parses_through.{}", if r.form == 12 { "Cache::get()" } else { FORM_NAMES[r.form] }));
+            acc.inc(&format!("parses_through.{}", if r.form == CACHE_FORM { "Cache::get()" } else { FORM_NAMES[r.form] }));
             if r.abort_fired {
                 acc.inc("fault.aborted_parse_fired");
             }
@@ -1203,7 +1243,7 @@ impl HistSim {
                 json!({
                     "case": idx, "subject": subject_shown(&case.subject), "pool": pool_shown(case),
                     "history": case.ops.iter().map(|o| format!("{:?}", o)).collect::<Vec<_>>(),
-                    "outcomes": ran.results.iter().map(|r| format!("op#{} via {}: {}", r.op, if r.form == 12 { "Cache::get()" } else { FORM_NAMES[r.form] }, short(&r.outcome))).collect::<Vec<_>>(),
+                    "outcomes": ran.results.iter().map(|r| format!("op#{} via {}: {}", r.op, if r.form == CACHE_FORM { "Cache::get()" } else { FORM_NAMES[r.form] }, short(&r.outcome))).collect::<Vec<_>>(),
                 })
             });
         }
